@@ -39,8 +39,8 @@
 #define MAXCTX 8
 #define LONG_MS 10000
 
-enum { K_CORRECT, K_DUP, K_STALE, K_OTHER, K_NOBIT, K_EARLY, K_DELAYED, K_ECHO, K_NEIGHBOUR, K_SHORT, K_N };
-static const char *kname[K_N] = { "correct", "dup", "stale", "other-ctx", "nobit", "early", "delayed", "echo", "neighbour-id", "short" };
+enum { K_CORRECT, K_DUP, K_STALE, K_OTHER, K_NOBIT, K_EARLY, K_DELAYED, K_ECHO, K_NEIGHBOUR, K_FORGED, K_SHORT, K_N };
+static const char *kname[K_N] = { "correct", "dup", "stale", "other-ctx", "nobit", "early", "delayed", "echo", "neighbour-id", "forged-before-wire", "short" };
 
 enum { D_NORMAL, D_HOLD, D_DELAY };
 enum { M_TCPADV, M_XREP, M_REP, M_N };
@@ -1814,6 +1814,225 @@ staged_late_timeout(long idx)
 	vf_nng_init(4, 2, 2);
 }
 
+// ------------------------------------------------------------ staged: reply before the request is on the wire
+// Request ids are consecutive, so a peer can predict the id of a request that
+// is still queued inside the REQ socket and answer it before it was ever sent.
+// Staged so that "still queued" is known, not guessed:
+//   1. helper context H sends; the raw peer reads it and holds the answer;
+//   2. context P sends a multi-megabyte request which the peer does not read:
+//      the only pipe stays busy with it (tiny receive buffer);
+//   3. victim contexts X1..Xn send: their requests queue (send aios pending);
+//   4. the peer writes forged replies with the predicted ids id(P)+1.., then
+//      the genuine reply for H on the same connection (frames of one pipe
+//      are processed in order);
+//   5. H's receive completes => the forged frames have been processed; a
+//      victim whose send aio is STILL pending was provably not on any wire
+//      then ("established");
+//   6. the peer resumes reading, sees the victims' requests (checks the
+//      prediction), answers them genuinely.
+// Oracle: an established victim must not receive the forged frame
+// (C04/unsolicited-delivered/reply-before-request-on-wire), and every victim's
+// genuine request must still be transmitted and answered.
+#define FE_MAXV 3
+static void
+staged_forged_early(long idx)
+{
+	vf_rng     r;
+	nng_socket s;
+	nng_ctx    cx[2 + FE_MAXV];
+	nng_aio   *sa[2 + FE_MAXV], *ra[2 + FE_MAXV];
+	bool       established[FE_MAXV] = { false }, early_recv[FE_MAXV] = { false }, sock_victim;
+	uint32_t   wire_id[FE_MAXV] = { 0 };
+	uint16_t   port = 0, peerproto = 0;
+	int        lfd, fd = -1, rv, sz = 4096;
+	char       url[64];
+	uint8_t    hdr[8 + 4 + VF_BODY_MIN], buf[256];
+	nng_msg   *m;
+	const uint32_t nonce = 0xfe00;
+
+	vf_rng_seed(&r, vf_seed, 7000 + (uint64_t) idx);
+	int    nv = (int) vf_range(&r, 1, FE_MAXV);
+	size_t plug = (size_t) vf_range(&r, 3, 8) << 20;
+	sock_victim = vf_chance(&r, 1, 3);
+	vf_case_begin(idx, "staged: forged replies with predicted ids while %d request(s) are queued behind a busy pipe (plug %zu MB%s)", nv, plug >> 20, sock_victim ? ", victim 0 is the socket" : "");
+	vf_watchdog(120);
+	atomic_store(&A.serial, 0);
+	if ((lfd = vf_tcp_listen(&port)) < 0) vf_harness_fail("raw listen");
+	setsockopt(lfd, SOL_SOCKET, SO_RCVBUF, &sz, sizeof(sz));
+	if (nng_req0_open(&s) != 0) vf_harness_fail("req open");
+	nng_socket_set_size(s, NNG_OPT_RECVMAXSZ, 0);
+	snprintf(url, sizeof(url), "tcp://127.0.0.1:%u", port);
+	if ((rv = nng_dial(s, url, NULL, NNG_FLAG_NONBLOCK)) != 0) vf_harness_fail("dial: %s", nng_strerror(rv));
+	if ((fd = vf_tcp_accept(lfd, LONG_MS)) < 0) vf_harness_fail("raw accept");
+	if (vf_sp_handshake(fd, 0x31, &peerproto, LONG_MS) != 0 || peerproto != 0x30) vf_harness_fail("raw handshake");
+	for (int i = 0; vf_pipe_count(s) < 1; i++) {
+		if (i > 10000) vf_harness_fail("pipe did not come up");
+		vf_msleep(1);
+	}
+	// contexts: 0 = H, 1 = P, 2.. = victims
+	for (int i = 0; i < 2 + nv; i++) {
+		if (nng_ctx_open(&cx[i], s) != 0) vf_harness_fail("ctx open");
+		if (nng_aio_alloc(&sa[i], NULL, NULL) != 0 || nng_aio_alloc(&ra[i], NULL, NULL) != 0) vf_harness_fail("aio alloc");
+	}
+#define FE_TAG(i) ((nonce << 16) | (uint32_t) (i))
+#define FE_SEND(i, size)                                                        \
+	do {                                                                    \
+		if (nng_msg_alloc(&m, (size)) != 0) vf_harness_fail("msg alloc"); \
+		vf_body_make(nng_msg_body(m), (size), FE_TAG(i), 1);            \
+		nng_aio_set_msg(sa[i], m);                                      \
+		nng_aio_set_timeout(sa[i], 60000);                              \
+		if ((i) == 2 && sock_victim) {                                  \
+			nng_socket_send(s, sa[i]);                              \
+		} else {                                                        \
+			nng_ctx_send(cx[i], sa[i]);                             \
+		}                                                               \
+	} while (0)
+#define FE_RECV(i)                                       \
+	do {                                             \
+		nng_aio_set_timeout(ra[i], 60000);       \
+		if ((i) == 2 && sock_victim) {           \
+			nng_socket_recv(s, ra[i]);       \
+		} else {                                 \
+			nng_ctx_recv(cx[i], ra[i]);      \
+		}                                        \
+	} while (0)
+	// 1. H
+	FE_SEND(0, VF_BODY_MIN + 40);
+	nng_aio_wait(sa[0]);
+	if (nng_aio_result(sa[0]) != 0) vf_harness_fail("staged: helper send: %s", nng_strerror(nng_aio_result(sa[0])));
+	long len = vf_sp_recv_frame(fd, false, buf, sizeof(buf), LONG_MS);
+	if (len < 4 + VF_BODY_MIN) vf_harness_fail("staged: helper request not seen (%ld)", len);
+	uint32_t id_h = get32(buf);
+	FE_RECV(0);
+	// 2. P: plugs the pipe
+	FE_SEND(1, plug);
+	nng_aio_wait(sa[1]);
+	if (nng_aio_result(sa[1]) != 0) vf_harness_fail("staged: plug send: %s", nng_strerror(nng_aio_result(sa[1])));
+	if (vf_fd_read_full(fd, hdr, sizeof(hdr), LONG_MS) != (long) sizeof(hdr)) vf_harness_fail("staged: plug header not seen");
+	uint64_t plen = ((uint64_t) get32(hdr) << 32) | get32(hdr + 4);
+	uint32_t id_p = get32(hdr + 8);
+	if (plen != 4 + plug) vf_harness_fail("staged: plug frame length %llu", (unsigned long long) plen);
+	// 3. victims queue up
+	for (int k = 0; k < nv; k++) {
+		FE_SEND(2 + k, VF_BODY_MIN + 16);
+		early_recv[k] = vf_chance(&r, 1, 3);
+		if (early_recv[k]) FE_RECV(2 + k); // (receive posted before the send is done)
+	}
+	vf_usleep(300);
+	// 4. forged replies for the predicted ids, then the marker
+	for (int k = 0; k < nv + 1; k++) {
+		int    v = k < nv ? k : nv - 1;
+		pframe f = { .idword = (id_p + 1 + (uint32_t) k) | 0x80000000u, .tag = FE_TAG(2 + v), .seq = 1, .klass = K_FORGED };
+		if (tcp_emit(fd, &f) != 0) vf_harness_fail("staged: forged write");
+	}
+	vf_stat("forged_early_frames_sent", nv + 1);
+	{
+		pframe f = { .idword = id_h, .tag = FE_TAG(0), .seq = 1, .klass = K_CORRECT };
+		if (tcp_emit(fd, &f) != 0) vf_harness_fail("staged: marker write");
+	}
+	// 5. marker received => forged frames processed
+	nng_aio_wait(ra[0]);
+	if ((rv = nng_aio_result(ra[0])) != 0) {
+		vf_violation("C04/disturbed/reply-not-delivered/staged-helper", "staged: the helper's genuine reply (sent after forged frames for queued requests) was not delivered: %s", nng_strerror(rv));
+	} else {
+		nng_msg_free(nng_aio_get_msg(ra[0]));
+		nng_aio_set_msg(ra[0], NULL);
+		for (int k = 0; k < nv; k++) {
+			established[k] = nng_aio_busy(sa[2 + k]);
+			vf_stat(established[k] ? "forged_early_while_queued" : "forged_early_not_established", 1);
+		}
+	}
+	// every victim has its receive posted from here on (legal while the send
+	// is queued); a reply wrongly stored for it would complete it at once
+	for (int k = 0; k < nv; k++) {
+		if (!early_recv[k]) FE_RECV(2 + k);
+	}
+	// 6. unplug: drain the plug, see the victims' requests, answer everything
+	{
+		size_t   rest = plug - VF_BODY_MIN;
+		uint8_t *big = malloc(1 << 20);
+		while (rest > 0) {
+			size_t n = rest < (1u << 20) ? rest : (1u << 20);
+			if (vf_fd_read_full(fd, big, n, 30000) != (long) n) vf_harness_fail("staged: plug body truncated");
+			rest -= n;
+		}
+		free(big);
+	}
+	for (int k = 0; k < nv; k++) {
+		uint32_t tag;
+		uint64_t seq;
+		len = vf_sp_recv_frame(fd, false, buf, sizeof(buf), LONG_MS);
+		if (len < 4 + VF_BODY_MIN || vf_body_check(buf + 4, (size_t) len - 4, &tag, &seq) != 0 || (tag >> 16) != nonce || (tag & 0xff) < 2 || (int) (tag & 0xff) >= 2 + nv) {
+			vf_violation("C04/disturbed/request-not-transmitted", "staged: after forged replies for queued requests only %d of %d queued requests reached the wire intact", k, nv);
+			break;
+		}
+		int v = (int) (tag & 0xff) - 2;
+		wire_id[v] = get32(buf);
+		if (wire_id[v] > id_p && wire_id[v] <= id_p + (uint32_t) nv) vf_stat("forged_early_id_predicted", 1);
+	}
+	for (int k = 0; k < nv; k++) {
+		if (wire_id[k] == 0) continue;
+		pframe f = { .idword = wire_id[k], .tag = FE_TAG(2 + k), .seq = 1, .klass = K_CORRECT };
+		if (tcp_emit(fd, &f) != 0) vf_harness_fail("staged: reply write");
+	}
+	for (int k = 0; k < nv; k++) {
+		int srv = 0;
+		if (wire_id[k] == 0) {
+			// never transmitted (reported above): do not wait a minute
+			// for it; look at what the receive got before cancelling
+			if (nng_aio_busy(ra[2 + k])) {
+				nng_aio_cancel(ra[2 + k]);
+				nng_aio_cancel(sa[2 + k]);
+			}
+		} else {
+			nng_aio_wait(sa[2 + k]);
+			if ((srv = nng_aio_result(sa[2 + k])) != 0) {
+				char key[96];
+				snprintf(key, sizeof(key), "C04/disturbed/send-failed/staged-%s", errname(srv));
+				vf_violation(key, "staged: queued request %d failed after forged replies: %s", k, nng_strerror(srv));
+			}
+		}
+		nng_aio_wait(ra[2 + k]);
+		rv = nng_aio_result(ra[2 + k]);
+		m = nng_aio_get_msg(ra[2 + k]);
+		nng_aio_set_msg(ra[2 + k], NULL);
+		if (m == NULL) {
+			if (wire_id[k] != 0 && srv == 0) {
+				vf_violation("C04/disturbed/reply-not-delivered/staged-victim", "staged: victim %d's genuine request was transmitted and answered, but its receive returned %s", k, nng_strerror(rv));
+			}
+			continue;
+		}
+		size_t   ml = nng_msg_len(m);
+		uint32_t kl = ml >= TRAILER ? get32((uint8_t *) nng_msg_body(m) + ml - 8) : K_N;
+		uint32_t fid = ml >= TRAILER ? get32((uint8_t *) nng_msg_body(m) + ml - 4) : 0;
+		if (kl == K_FORGED && established[k]) {
+			vf_violation("C04/unsolicited-delivered/reply-before-request-on-wire", "staged: %s %d's request was still queued inside the socket (send pending, only pipe busy) when a reply with the predicted id %08x was processed; that forged reply was delivered as its answer%s", (k == 0 && sock_victim) ? "socket victim" : "victim", k, fid, early_recv[k] ? " (receive posted early)" : "");
+		} else if (kl == K_FORGED) {
+			vf_stat("forged_early_delivered_unjudged", 1); // the request may have been on the wire by then
+		} else if (kl == K_CORRECT) {
+			vf_stat("forged_early_genuine_answered", 1);
+		} else {
+			vf_violation("C04/reply-garbled", "staged: victim %d received a %zu-byte message that is neither reply", k, ml);
+		}
+		nng_msg_free(m);
+	}
+	vf_stat("staged_forged_cases", 1);
+	close(fd);
+	close(lfd);
+	for (int i = 0; i < 2 + nv; i++) {
+		nng_aio_stop(sa[i]);
+		nng_aio_stop(ra[i]);
+		if ((m = nng_aio_get_msg(sa[i])) != NULL) nng_msg_free(m);
+		if ((m = nng_aio_get_msg(ra[i])) != NULL) nng_msg_free(m);
+		nng_aio_free(sa[i]);
+		nng_aio_free(ra[i]);
+		nng_ctx_close(cx[i]);
+	}
+	nng_socket_close(s);
+	vf_nng_fini("C04");
+	vf_nng_init(4, 2, 2);
+}
+
 int
 main(int argc, char **argv)
 {
@@ -1855,6 +2074,9 @@ main(int argc, char **argv)
 	}
 	// (one worker is enough: the staged case is deterministic)
 	if (vf_shard == 0 && vf_want_case(vf_cases)) staged_late_timeout(vf_cases);
+	for (long j = 1; j <= (thorough ? 16 : 8); j++) {
+		if (vf_want_case(vf_cases + j)) staged_forged_early(vf_cases + j);
+	}
 	vf_nng_fini("C04");
 	return vf_finish();
 }
